@@ -122,7 +122,16 @@ def run_case(c):
                     cb = op[1]
                     uuids[cb["id"]] = client.onevent(callback=make_cb(cb), device=cb["dev"], vector=cb["vec"], element=cb["elem"],
                                                      event_type=etype[cb["type"]])
-            h = ConnectionHandler(Reader(), Writer(), client.process_message, for_blobs=c.get("for_blobs", False))
+            from indi.transport.client import tcp as ctcp
+            real_open = asyncio.open_connection
+
+            async def pipe_open(address, port, *a, **kw):
+                return Reader(), Writer()
+            asyncio.open_connection = pipe_open
+            try:
+                h = await ctcp.TCP("server.invalid", 7624).connect(client.process_message, for_blobs=c.get("for_blobs", False))
+            finally:
+                asyncio.open_connection = real_open
             try:
                 await h.wait_for_messages()
             except Exception as e:  # noqa
